@@ -210,6 +210,7 @@ class Body:
         self.is_coroutine = d['coroutine']
         self._succ = None
         self._pred = None
+        self._ret_locals = None
         self._dom = None
         self._reach = None
         self._defs = None
@@ -331,6 +332,39 @@ class Body:
         if target in through:
             return True
         return target not in self.reachable(start, avoid=through)
+
+    @property
+    def ret_locals(self):
+        """Locals whose whole value is (on some path) the function's result: `_0`, and what is moved into it - directly, or
+        through the Poll::Ready wrapper of a spliced `helper().await` (`D = Poll::Ready(x)`; `y = (D as Ready).0`; `_0 = y`).
+        A rule that asks "where is Ok(..) / Err(..) returned" looks at aggregates assigned to any of them."""
+        if getattr(self, '_ret_locals', None) is None:
+            ret = {0}
+            changed = True
+            while changed:
+                changed = False
+                for bi, j, s in self.assigns():
+                    if place_proj(s['lhs']) or s['lhs']['l'] not in ret:
+                        continue
+                    rv = s['rv']
+                    src = None
+                    if rv['k'] == 'use':
+                        q = op_place(rv['op'])
+                        if q is not None:
+                            pj = [e for e in place_proj(q)]
+                            if not pj:
+                                src = q['l']
+                            elif len(pj) == 2 and isinstance(pj[0], dict) and pj[0].get('d') == 'Ready' and isinstance(pj[1], dict) and str(pj[1].get('f')) == '0':
+                                src = q['l']
+                    elif rv['k'] == 'agg' and rv.get('adt') == 'std::task::Poll' and rv.get('variant') == 'Ready' and rv.get('fields'):
+                        q = op_place(rv['fields'][0])
+                        if q is not None and not place_proj(q):
+                            src = q['l']
+                    if src is not None and src not in ret and src > self.argc:
+                        ret.add(src)
+                        changed = True
+            self._ret_locals = ret
+        return self._ret_locals
 
     def _switch_root(self, bi):
         """For a switch on a plain local: the single-definition local the tested value is a copy of (or None)."""
